@@ -14,6 +14,8 @@ TEXT = {
          "partial: the four cuckaroo* verifiers' cycle logic and proof sizes above 4 are not decided; the graph-seeding hash is replaced by an arbitrary function; per-query edge_bits and proof size are concrete"),
  "C07": ("Bounded proof (Kani/CBMC): MMR position arithmetic equals the defining append rule; PMMR construction (sizes, node hashes, root, validate) over VecBackend equals the definition; a proof exists and verifies for every leaf.",
          "bounds: position widths and MMR sizes (2-3 leaves quick) per obligation in evidence; the proof-soundness clause (corrupted proofs fail) is only a thorough-tier attempt under an ideal-hash stub and is not part of the claim"),
+ "C08": ("Bounded proof (Kani/CBMC) by induction on the prune list's operations: from ANY valid prune-list state (maximal pruned subtrees + defining prefix sums, symbolic) every query equals the definition, and one real append / init_caches re-establishes such a state for the enlarged pruned set.",
+         "partial: prune-list arithmetic over a correct bitmap (CRoaring replaced by a 64-value bitset); universe 31 positions quick / 63 thorough, at most 3 (4) entries in the pre-state; the file layer, PMMRBackend index translation, reopen and chain-level compaction are not claimed"),
  "C10": ("Bounded proof (Kani/CBMC) of value round trip, canonical bytes (decode then re-encode reproduces the consumed bytes) and version-independent hashes for the fixed-size consensus objects.",
          "partial: containers, headers, segments and p2p messages not yet encoded"),
  "C11": ("Bounded proof (Kani/CBMC): listed decoders and Segment::validate never panic / over-allocate / spin on any byte string or decoded-shape value of the listed sizes.",
@@ -36,12 +38,12 @@ NA = {
  "C09": "requires process death between real fsync/rename/LMDB commits and a restart",
  "C17": "Kani does not model thread interleavings",
  "C18": "semantics live in LMDB behind heed (FFI), plus threads and f32",
- "C08": "prune-list/leaf-set queries under the croaring model were measured not to finish (8 leaves: 65 min); file layer needs real files",
  "C15": "1024-bit chunks x MMR hashing: first form measured not to finish (40 min); not yet retried in the reduced form",
  "C20": "model keychain not yet instantiated; everything else is libsecp256k1-zkp FFI",
 }
 
 # properties that have obligations in the plan for experiments but are NOT claimed (nothing finishes yet)
+HOOK_COMMITS = ["80d9b7d18"]
 EXPERIMENTAL = {"C15"}
 
 
@@ -50,9 +52,9 @@ def main():
         "version": 1,
         "setup_cmd": "bin/setup",
         "hooks": {"guard": "cfg(any(kani, grin_verif))",
-                  "enable": "cfg(kani) is set by `cargo kani` itself; no source hook is required by the checks registered in this revision",
+                  "enable": "cfg(kani) is set by `cargo kani` itself (the checks' Kani builds see the hooks); native counterexample replays are built with RUSTFLAGS='--cfg grin_verif'",
                   "baseline_off_cmd": "cd /repo && cargo test --workspace --no-fail-fast --offline",
-                  "source_commits": [], "add_only": True},
+                  "source_commits": HOOK_COMMITS, "add_only": True},
         "engines": [{"name": "kani", "path": "/verif/harness/vh", "serves_properties": sorted(k for k in plan.PLAN.keys() if k not in EXPERIMENTAL),
                      "kind_free_text": "Kani 0.68 proof harnesses (CBMC 6.11 + CaDiCaL) over the real grin crates as path dependencies on /repo; bin/check -> lib/runner.py drives one cargo-kani query per obligation, extracts counterexamples from the CBMC trace and replays them natively"}],
         "checks": [],
